@@ -48,6 +48,16 @@ def check_face(ctx, face, kind, desc, expect_normal=None):
     if not X.pclose(X.cross(x, y), n, 1e-9, 1.0):
         ctx.violation(kind + ':frame_handedness', 'x cross y != n', desc)
         return
+    if face.has_holes:
+        # the single loop `vertices` (boundary with the holes cut in) winds like the boundary: its area vector is (A_boundary - A_holes) n
+        nv = X.newell([X.fpt(p) for p in face.vertices])
+        if X.dot(nv, n) <= 0:
+            ctx.violation(kind + ':vertices_loop_clockwise', 'the merged vertices loop winds clockwise about the normal (%d vertices)' % len(face.vertices), desc)
+            return
+        pv = face.polygon2d.vertices
+        if sum(pv[i - 1].x * pv[i].y - pv[i].x * pv[i - 1].y for i in range(len(pv))) <= 0:
+            ctx.violation(kind + ':polygon2d_clockwise', 'polygon2d of a face that reports counter-clockwise has negative signed area', desc)
+            return
     sc = max(1.0, max(abs(float(c)) for p in b for c in p))
     for p in list(face.vertices):
         back = pl.xy_to_xyz(pl.xyz_to_xy(p))
@@ -94,11 +104,21 @@ def near_z_frame(rng):
 
 
 def fam_ctor(ctx, rng):
-    mode = rng.choice(['star', 'star', 'star', 'concave_first', 'collinear_first', 'collinear_quad', 'collinear_quad'])
-    b = shape(rng, mode)
-    nh = rng.choice([0, 0, 0, 1, 2, 3]) if mode == 'star' else 0
-    hs = G.holes_in(rng, b, nh) if nh else []
-    k = rng.randrange(len(b)) if mode in ('star', 'collinear_quad') else (0 if rng.random() < 0.6 else rng.randrange(len(b)))
+    mode = rng.choice(['star', 'star', 'star', 'concave_first', 'collinear_first', 'collinear_quad', 'collinear_quad', 'large'])
+    if mode == 'large':
+        # the upper end of the quantifier: a 40..60-vertex outline with 1..3 many-vertex holes of either orientation
+        nb = rng.choice([40, 50, 60])
+        b = [(G.dy((50 + rng.uniform(-2, 2)) * math.cos(2 * math.pi * i / nb)), G.dy((50 + rng.uniform(-2, 2)) * math.sin(2 * math.pi * i / nb))) for i in range(nb)]
+        hs = []
+        for cx_, cy_ in [(-25.0, 0.0), (25.0, 0.0), (0.0, 25.0)][:rng.randint(1, 3)]:
+            m = rng.choice([8, 14, 14, 30, 60])
+            h = [(G.dy(cx_ + 5 * math.cos(2 * math.pi * i / m)), G.dy(cy_ + 5 * math.sin(2 * math.pi * i / m))) for i in range(m)]
+            hs.append(h[::-1] if rng.random() < 0.5 else h)
+    else:
+        b = shape(rng, mode)
+        nh = rng.choice([0, 0, 0, 1, 2, 3]) if mode == 'star' else 0
+        hs = G.holes_in(rng, b, nh) if nh else []
+    k = rng.randrange(len(b)) if mode in ('star', 'collinear_quad', 'large') else (0 if rng.random() < 0.6 else rng.randrange(len(b)))
     b = b[k:] + b[:k]
     rev = rng.random() < 0.5
     if rev:
